@@ -11,6 +11,13 @@ def main():
         sys.argv = [sys.argv[0], obj['property'], '--replay', sys.argv[2]]
     prop = sys.argv[1]
     mod = importlib.import_module('harness.props.' + prop.lower())
+    # per-case watchdog: a case that does not return within the limit is reported as a failure of that input
+    limit = int(os.environ.get('VERIF_CASE_LIMIT', '60'))
+    for name in dir(mod):
+        f = getattr(mod, name)
+        if callable(f) and getattr(f, '__module__', None) == mod.__name__ and not getattr(f, '_verif_watchdog', False) \
+                and (name in ('side_case', 'gen_int_case', 'run_history', 'judge', 'judge2', 'gen_case', 'run_case') or name.endswith('_side') or name.endswith('_int')):
+            setattr(mod, name, lib.with_watchdog(f, limit))
     if len(sys.argv) > 3 and sys.argv[2] == '--replay':
         obj = json.load(open(sys.argv[3]))
         sys.exit(mod.replay(obj))
